@@ -93,6 +93,13 @@ func NewRolloutScn(c *vs.Case, o RolloutOpts) *Scn {
 			"other":    "o1",
 			"template": map[string]any{"v": "v1", "metadata": map[string]any{"labels": map[string]any{"app": "p1"}}},
 		}}
+	if !o.Small && c.Prob(1, 5) {
+		// a hook that hands the observed annotations (metacontroller's own record included) back
+		for i := range s.Prog.Children {
+			s.Prog.Children[i].EchoAnnotations = true
+		}
+		c.Class("hook-echoes-annotations")
+	}
 	if o.TwoKinds && c.Prob(1, 4) {
 		// a second rolling kind; its children carry the same names as the widgets
 		ch2 := ch
